@@ -43,6 +43,10 @@ func genFwd(r *Rng) Scenario {
 			all = append(all, ts...)
 			ss.Steps = append(ss.Steps, Step{Op: "round", Ts: ts})
 		}
+		if r.Chance(1, 3) {
+			// a crash inside the in-place rewrite of the pipe's progress file (as left by its last save)
+			ss.Surgery = []Surgery{{Kind: "progress-torn", K: r.PickInt(0, 1, 250, 500, 900, 999)}}
+		}
 		sc.Sessions = append(sc.Sessions, ss)
 	}
 	a, b := all[r.Intn(len(all))], all[r.Intn(len(all))]
@@ -70,6 +74,8 @@ func genScenario(r *Rng) Scenario {
 			ss.End = "kill"
 		case x < 45:
 			ss.End, ss.EndK = "crash-stop", r.PickInt(0, 1, 250, 500, 900, 999)
+		case x < 53:
+			ss.End, ss.EndK = "crash-create", r.PickInt(1, 5, 15, 25, 35)
 		}
 		if s > 0 && r.Chance(1, 4) {
 			// a blind start: the first thing the server is asked is a write. Everything of the session before has to be
@@ -185,6 +191,9 @@ func corpus() []Scenario {
 		{Kind: "corpus", NParts: 1, Range: [2]int64{15, 25}, Sessions: []Session{{Steps: []Step{}, End: "stop", Surgery: []Surgery{{Kind: "tindex-torn", K: 0}}}}},
 		{Kind: "corpus", NParts: 1, Range: [2]int64{15, 25}, Sessions: []Session{{Steps: []Step{w(0, 10)}, End: "kill", Surgery: []Surgery{{Kind: "tindex-torn", K: 500}}}}},
 		{Kind: "corpus", NParts: 2, Range: [2]int64{15, 25}, Sessions: []Session{{Steps: []Step{w(0, 10, 20, 30), w(1, 5), sy}, End: "stop", Surgery: []Surgery{{Kind: "drop-window", Part: 1}}}}},
+		// a crash inside the tag-index save of a partition creation leaves a tindex.dat.tmp that is longer than the index the next
+		// starts save: it must not leak into tindex.dat (two more starts)
+		{Kind: "corpus", NParts: 1, Range: [2]int64{15, 25}, Sessions: []Session{{Steps: []Step{w(0, 10, 20, 30), sy}, End: "crash-create", EndK: 25}, {Steps: []Step{w(0, 40), sy}, End: "stop"}, {Steps: []Step{w(0, 50)}, End: "stop"}}},
 		// C07_crash_pipes (C07_crash_pipes_shutdown_only_refuted): a pipe created since the last clean shutdown, SIGKILL;
 		// the server dies inside the write of the pipes save of the shutdown sequence; a pipe deleted, SIGKILL
 		{Kind: "corpus", NParts: 1, Range: [2]int64{15, 25}, Sessions: []Session{{Steps: []Step{w(0, 10, 20, 30), sy, {Op: "pipe", Name: "pa"}}, End: "kill"}}},
@@ -203,6 +212,10 @@ func corpus() []Scenario {
 		{Kind: "corpus", NParts: 2, Range: [2]int64{15, 25}, Sessions: []Session{{Steps: []Step{w(0, 10, 20), w(1, 11, 21), sy, {Op: "drop", Part: 1}}, End: "kill"}, {Steps: []Step{{Op: "drop", Part: 0}}, End: "stop"}}},
 		// C07_pipe_catches_up_once: a pipe forwards, graceful restart, the source is written again: nothing is forwarded twice
 		{Kind: "fwd", NParts: 2, Range: [2]int64{15, 25}, Sessions: []Session{{Steps: []Step{{Op: "fwdpipe"}, {Op: "round", Ts: []int64{10, 20, 30}}, {Op: "round", Ts: []int64{40}}}, End: "stop"}, {Steps: []Step{{Op: "round", Ts: []int64{50, 60}}, {Op: "round", Ts: []int64{70}}}, End: "stop"}, {Steps: []Step{{Op: "round", Ts: []int64{80}}}, End: "stop"}}},
+		// C07_torn_progress_starts: the progress file of the pipe torn (empty / half / all but a byte): the server starts, the pipe is
+		// there; it has no position: 30 (flushed, not forwarded when the file was torn) is passed over, nothing is forwarded twice
+		{Kind: "fwd", NParts: 2, Range: [2]int64{15, 25}, Sessions: []Session{{Steps: []Step{{Op: "fwdpipe"}, {Op: "round", Ts: []int64{10, 20}}, {Op: "round", Ts: []int64{30}}}, End: "stop", Surgery: []Surgery{{Kind: "progress-torn", K: 0}}}, {Steps: []Step{{Op: "round", Ts: []int64{40}}, {Op: "round", Ts: []int64{50}}}, End: "stop"}}},
+		{Kind: "fwd", NParts: 2, Range: [2]int64{15, 25}, Sessions: []Session{{Steps: []Step{{Op: "fwdpipe"}, {Op: "round", Ts: []int64{10, 20}}, {Op: "round", Ts: []int64{30}}}, End: "stop", Surgery: []Surgery{{Kind: "progress-torn", K: 500}}}, {Steps: []Step{{Op: "round", Ts: []int64{40}}}, End: "stop", Surgery: []Surgery{{Kind: "progress-torn", K: 999}}}, {Steps: []Step{{Op: "round", Ts: []int64{50}}, {Op: "round", Ts: []int64{60}}}, End: "stop"}}},
 		// the snapshot of the time index is lost and the first thing the restarted server is asked is a write to the chunk it
 		// does not know: the index is found inconsistent and rebuilt, RANGE shows the earlier events
 		{Kind: "corpus", NParts: 1, Range: [2]int64{15, 25}, Sessions: []Session{{Steps: []Step{w(0, 10, 20, 30), sy}, End: "stop", Surgery: []Surgery{{Kind: "cindex-drop"}}}, {Blind: true, Steps: []Step{w(0, 40), sy}, End: "stop"}}},
@@ -240,6 +253,8 @@ func gSurgery(s Surgery) string {
 		return GApp("GTTorn", GNat(s.K))
 	case "drop-window":
 		return GApp("GTOrphan", GNat(s.Part))
+	case "progress-torn":
+		return GApp("GProgTorn", GNat(1), GNat(s.K)) // fwd scenarios: the destination is partition 1
 	case "cindex-drop":
 		return "GCDrop"
 	case "cindex-torn":
@@ -300,7 +315,7 @@ func gObs(o Obs) string {
 
 // ---------------------------------------------------------------- main
 
-const rule = "scenarios of 1-3 sessions on one server directory (child process): writes to 1-3 partitions (timestamps increasing per partition), explicit flushes (standing for WriteFlushMs passing), pipe create/delete; every session ends by a graceful stop, by SIGKILL, or by a crash injected into the shutdown sequence (the process dies inside the write of its first saver, the pipes save, at 0..999 per mille); after a graceful stop optionally: a crash injected into the tag-index save at the end of Init (a start that dies inside the saver's write at 0..999 per mille), the directory of a partition removed (a crash between the two effects of a partition removal), cindex.dat dropped / torn / replaced by the one of the previous shutdown; every start is observed (refused, or partitions + events + pipes + a RANGE probe) - except blind starts (a quarter of the later sessions: the first request is a write, usually after the time-index snapshot was lost); 6 % of the steps truncate a partition away completely; 1 scenario in 12 has a forwarding pipe from partition 0 to its destination partition instead (graceful stops only, rounds of flush / write / wait until the pipe has caught up); at the end of every session the RANGE probe is compared with the plain read. Non-trivial: at least one session wrote events that were flushed, and the scenario has a crash, a surgery or an unflushed acknowledged write at a graceful stop."
+const rule = "scenarios of 1-3 sessions on one server directory (child process): writes to 1-3 partitions (timestamps increasing per partition), explicit flushes (standing for WriteFlushMs passing), pipe create/delete; every session ends by a graceful stop, by SIGKILL, by a crash injected into the tag-index save of a partition creation (the process dies inside the write, the leftover is longer than the present index), or by a crash injected into the shutdown sequence (the process dies inside the write of its first saver, the pipes save, at 0..999 per mille); after a graceful stop optionally: a crash injected into the tag-index save at the end of Init (a start that dies inside the saver's write at 0..999 per mille), the directory of a partition removed (a crash between the two effects of a partition removal), cindex.dat dropped / torn / replaced by the one of the previous shutdown; every start is observed (refused, or partitions + events + pipes + a RANGE probe) - except blind starts (a quarter of the later sessions: the first request is a write, usually after the time-index snapshot was lost); 6 % of the steps truncate a partition away completely; 1 scenario in 12 has a forwarding pipe from partition 0 to its destination partition instead (graceful stops only, rounds of flush / write / wait until the pipe has caught up); at the end of every session the RANGE probe is compared with the plain read. Non-trivial: at least one session wrote events that were flushed, and the scenario has a crash, a surgery or an unflushed acknowledged write at a graceful stop."
 
 func run(c *Ctx) error {
 	var scs []Scenario
